@@ -63,3 +63,38 @@ CHECKS = {
         ],
     },
 }
+
+CHECKS["C01"] = {
+    "level": "exploration",
+    "technique": "model-based property testing (rapid) of sequential programs + generated concurrent histories checked for linearizability (porcupine as oracle)",
+    "level_text": ("Generated client programs (Put / Put-NX / Put-XX / Get / Delete on 1-3 hot keys, filler writes that roll storage tables over) run against real in-process clusters "
+                   "(1-3 members, R 1-3, partition counts, table sizes 512 B-1 MB) through every entry path. Sequential shape: every result is compared with a register model and read back through a second path. "
+                   "Concurrent shape: 2-6 clients start on a barrier, the recorded (invocation, response, result) history must have a legal sequential order per key (porcupine). "
+                   "Exploration: interleavings are produced by real concurrency plus a drawn delay at the put.afterCheck hook, not enumerated."),
+    "level_note": "trusted: porcupine's checker, the register step function, wall-clock invocation/response stamps taken in the harness; membership is stable (pooled clusters)",
+    "rule": ("seq: non-trivial = a Get/Delete/overwrite of an existing key while its primary fragment spans >= 2 tables. conc: non-trivial = two clients on different paths overlap in time on one key "
+             "with a write and a Get/NX/XX. distinct = distinct case hash"),
+    "assumptions": ["ReadRepair off (default)"],
+    "parts": [
+        {"name": "seq", "pkg": ROOT, "test": "TestVerifC01Seq", "kind": "rapid",
+         "checks_quick": 60, "checks_thorough": 1500, "shards_quick": 6, "shards_thorough": 16, "timeout_quick": 300, "timeout_thorough": 1800},
+        {"name": "conc", "pkg": ROOT, "test": "TestVerifC01Conc", "kind": "rapid",
+         "checks_quick": 120, "checks_thorough": 3000, "shards_quick": 8, "shards_thorough": 16, "timeout_quick": 300, "timeout_thorough": 1800},
+    ],
+}
+
+CHECKS["C07"] = {
+    "level": "exploration",
+    "technique": "property-based testing of concurrent callers with a conservation oracle and a counter linearizability check (rapid + porcupine as oracle)",
+    "level_text": ("2-8 generated callers, each bound to an entry path (embedded on owner / on another member, cluster client, raw RESP to owner / to another member), issue Incr/Decr, IncrByFloat "
+                   "(multiples of 0.25, so sums are exact) or GetPut with unique values on one key of a real in-process cluster. Oracle: final value = initial + sum of acknowledged deltas; the returned values "
+                   "must be linearizable against a counter; GetPut results must form a single chain (exactly one 'no old value', no value returned twice, every written value returned once or final). "
+                   "Exploration: schedules come from real concurrency widened by a drawn delay at the atomic.afterRead hook."),
+    "level_note": "trusted: porcupine, the harness bookkeeping; plain Put is never mixed with atomic operations (README documents that as unsupported)",
+    "rule": "case = (cluster shape, mode, initial value, callers with paths and deltas); non-trivial = the callers enter through >= 2 different members; distinct = distinct case hash",
+    "assumptions": ["membership stable (pooled clusters)"],
+    "parts": [
+        {"name": "atomic", "pkg": ROOT, "test": "TestVerifC07", "kind": "rapid",
+         "checks_quick": 40, "checks_thorough": 1200, "shards_quick": 8, "shards_thorough": 16, "timeout_quick": 300, "timeout_thorough": 1800},
+    ],
+}
